@@ -185,21 +185,34 @@ def run_property(prop, tier='quick', seed=0, jobs=None, only=None):
   ctx = mp.get_context('fork')
   with cf.ProcessPoolExecutor(max_workers=jobs, mp_context=ctx) as pool:
     futs = [pool.submit(_run_one, t) for t in tasks]
-    bfuts = []
+    # bounded drivers run in their own processes so that a driver that does
+    # not terminate (e.g. on a tree where an operation loops) can be stopped
+    bprocs = []
+    budget = float(os.environ.get('PYVC_DRIVER_TIMEOUT', 420 if tier == 'quick' else 2400))
     for bm in bmods:
       for drv in getattr(bm, 'DRIVERS', []):
-        bfuts.append((f'{bm.__name__}.{drv.__name__}',
-                      pool.submit(_run_bounded, bm.__name__, drv.__name__, tier, seed)))
+        q = ctx.Queue()
+        pr = ctx.Process(target=_bounded_entry, args=(q, bm.__name__, drv.__name__, tier, seed))
+        pr.daemon = True
+        pr.start()
+        bprocs.append((f'{bm.__name__}.{drv.__name__}', pr, q, time.time()))
     for t, f in zip(tasks, futs):
       try:
         reports.append(f.result(timeout=3600))
       except Exception as e:  # pylint: disable=broad-except
         errors.append(f'{t[1]}: worker failed: {e!r}')
-    for name, f in bfuts:
+    for name, pr, q, started in bprocs:
       try:
-        bounded_reports.append(f.result(timeout=7200))
+        left = max(1.0, budget - (time.time() - started))
+        bounded_reports.append(q.get(timeout=left))
+        pr.join(5)
       except Exception as e:  # pylint: disable=broad-except
-        errors.append(f'{name}: bounded worker failed: {e!r}')
+        if pr.is_alive():
+          pr.terminate()
+          errors.append(f'{name}: bounded driver did not finish within {budget:.0f}s and was stopped '
+                        f'(undecided: a non-terminating operation on this tree, or an overloaded machine)')
+        else:
+          errors.append(f'{name}: bounded driver died without a report: {e!r}')
 
   known = [k for k in load_known() if k.get('property') == prop and k.get('status') == 'known']
   known_by_ob = {}
@@ -463,6 +476,10 @@ def _replay_subprocess(task, obligation, model, timeout=20):
     if line.startswith('REPLAY-RESULT '):
       return json.loads(line[len('REPLAY-RESULT '):])
   return dict(outcome='replay-crashed', detail=(p.stderr or '')[-600:])
+
+
+def _bounded_entry(q, modname, drvname, tier, seed):
+  q.put(_run_bounded(modname, drvname, tier, seed))
 
 
 def _run_bounded(modname, drvname, tier, seed):
